@@ -8,7 +8,7 @@ import (
 
 func init() {
 	register(&propDef{ID: "C04", Run: runC04,
-		Explain:    "Structural necessary conditions of 'in-dialog requests stick to the answering backend', decided on SSA/CFG of /repo: (1) lookup-before-pool: in sendToBackend the receiver of Send is the pinned backend on the success edge of findBackendByDialog and the service's round-robin pool only on its failure edge; (2) bind-sites: handleDialog binds AddBackend(GetDialog(msg), getBackendOfResponse(JoinHostPort(peer), msg), Expires) for every response (provisional or final) whose CSeq method is INVITE and that has a dialog identifier, once; getBackendOfResponse answers with backends[addr] first; the response branch of HandleMessage binds the dialog of a SUBSCRIBE response to the backend registered under the next hop's host:port; sendToBackend binds the client transaction to the chosen backend after a successful send; (3) key-agreement: every key given to the pin table (AddBackend/GetBackend/RemoveDialog) is produced by GetDialog or by GetClientTransaction, each namespace has put, get and remove sites, and the backend address index is written under Backend.GetAddress() and read under host:port strings; (4) order: the loop's message case runs handleRawMessage, then handleDialog(peer address, peer port, message), then HandleMessage(message), each once, the latter two only on success; (5) method-gate: findBackendByDialog refuses only INVITE and SUBSCRIBE, every other method looks up GetDialog(msg) in the pin table and returns that lookup's backend and error; the dialog identifier itself is C16, lifetime C15, thread confinement C09.",
+		Explain:    "Structural necessary conditions of 'in-dialog requests stick to the answering backend', decided on SSA/CFG of /repo: (1) lookup-before-pool: in sendToBackend the receiver of Send is the pinned backend on the success edge of findBackendByDialog and the service's round-robin pool only on its failure edge; (2) bind-sites: handleDialog binds AddBackend(GetDialog(msg), getBackendOfResponse(JoinHostPort(peer), msg), Expires) for every response (provisional or final) whose CSeq method is INVITE and that has a dialog identifier, once; getBackendOfResponse answers with backends[addr] first; the response branch of HandleMessage binds the dialog of a SUBSCRIBE response to the backend registered under the next hop's host:port; sendToBackend binds the client transaction to the chosen backend after a successful send; (3) key-agreement: every key given to the pin table (AddBackend/GetBackend/RemoveDialog) is produced by GetDialog or by GetClientTransaction, each namespace has put, get and remove sites, and the backend address index is written under Backend.GetAddress() and read under host:port strings; (4) order: the loop's message case runs handleRawMessage, then handleDialog(peer address, peer port, message), then HandleMessage(message), each once, the latter two only on success; (5) method-gate: findBackendByDialog refuses only INVITE and SUBSCRIBE, every other method looks up GetDialog(msg) in the pin table and returns that lookup's backend and error; the dialog identifier itself is C16, lifetime C15, thread confinement C09. The termination rule of C15 (who may forget a pin: BYE answered, NOTIFY terminated, the transaction record at its final response; the pin record is written only when made) is shared.",
 		NotDecided: "stickiness over interleaved histories as such."})
 }
 
@@ -27,6 +27,8 @@ func runC04(c *Ctx) {
 	runC16(c)
 	c15Polarity(c)
 	c15AddBackend(c)
+	// and a pin dissolved or shortened before the dialog ended is no pin: who may forget, who may rewrite the record
+	c15Termination(c)
 }
 
 func c04LookupBeforePool(c *Ctx) {
@@ -418,7 +420,21 @@ func c04MethodGate(c *Ctx) {
 		if !canReach(at(gb), nil, isInstr(r), nil) || len(r.Results) != 3 {
 			continue
 		}
-		good = allVals(phiLeaves(r.Results[0]), func(v ssa.Value) bool { return isResultOf(v, gb, 0) }) && allVals(phiLeaves(r.Results[2]), func(v ssa.Value) bool { return isResultOf(v, gb, 1) })
+		// the error handed out is the lookup's: that very value, or a nil constant on an edge taken only when the lookup
+		// succeeded (`return backend, transport, nil` behind `if err != nil { return .., err }`)
+		errOK := true
+		for _, pr := range w.okPairs(f, r, r.Results[2]) {
+			for _, v := range phiLeaves(pr.Val) {
+				if isResultOf(v, gb, 1) {
+					continue
+				}
+				if isNilConst(v) && w.requires(f, pr.At, errNil(gb), true) {
+					continue
+				}
+				errOK = false
+			}
+		}
+		good = allVals(phiLeaves(r.Results[0]), func(v ssa.Value) bool { return isResultOf(v, gb, 0) }) && errOK
 	}
 	c.check(good, rule, "findBackendByDialog/result", w.ipos(gb), "returns the lookup's backend and error", "after the lookup findBackendByDialog does not return (GetBackend's backend, .., GetBackend's error)")
 	for _, call := range []ssa.CallInstruction{gm, gd} {
